@@ -52,6 +52,35 @@ SUM_ATOMS = [False]     # Krylov checks: a summation that no equality determines
 SUMF = z3.Function("sumf", I, I, z3.ArraySort(I, R), R)
 
 
+_LH = {}
+
+
+def lambda_height(t):
+    """nesting depth of lambdas in a term (DAG traversal, cached)"""
+    k = _LH.get(t.get_id())
+    if k is not None and z3.eq(k[0], t):
+        return k[1]
+    if z3.is_quantifier(t):
+        h = 1 + lambda_height(t.body())
+    elif z3.is_app(t):
+        h = 0
+        for c in t.children():
+            h = max(h, lambda_height(c))
+    else:
+        h = 0
+    if len(_LH) > 500000:
+        _LH.clear()
+    _LH[t.get_id()] = (t, h)
+    return h
+
+
+def canon_lambda(var, body):
+    """lambda var. body with a canonical bound-variable name (z3 keeps the name in the node, so alpha-equivalent lambdas with different
+    names are different terms): the name is determined by the lambda height of the body, which is larger than that of every lambda inside"""
+    cv = z3.Int(f"bv{lambda_height(body)}")
+    return z3.Lambda([cv], z3.substitute(body, (var, cv)))
+
+
 def ents_expr(ents):
     """the entry as one z3 Real term"""
     t = z3.RealVal(0)
@@ -64,7 +93,7 @@ def ents_expr(ents):
         c = z3.And(*e.conds) if e.conds else z3.BoolVal(True)
         body = z3.If(c, e.val, z3.RealVal(0)) if e.conds else e.val
         for var, lo, hi in reversed(e.sums):       # innermost summation variable last
-            body = SUMF(iterm(lo), iterm(hi), z3.Lambda([var], body))
+            body = SUMF(iterm(lo), iterm(hi), canon_lambda(var, body))
         t = t + body
     return z3.simplify(t)
 
@@ -73,16 +102,24 @@ _KEYCACHE = {}
 
 
 def _okey(t):
-    """name-insensitive structural key (fresh index variables 'x?12' all read 'x?'): used to orient commutative products
-    inside summation bodies, where the commutativity axiom cannot be instantiated"""
+    """cheap name-insensitive structural key (head symbols to depth 3; fresh index variables 'x?12' all read 'x?'): used to orient
+    commutative products inside summation bodies, where the commutativity axiom cannot be instantiated"""
     import re
     k = _KEYCACHE.get(t.get_id())
     if k is None:
-        k = re.sub(r"\?\d+", "?", t.sexpr())
+        def sig(u, d):
+            if z3.is_var(u):
+                return "#"
+            nm = re.sub(r"[?!]\d+", "?", u.decl().name()) if z3.is_app(u) else "q"
+            if d == 0 or not z3.is_app(u) or u.num_args() == 0:
+                return nm
+            return nm + "(" + ",".join(sig(c, d - 1) for c in u.children()) + ")"
+        k = sig(t, 3)
         if len(_KEYCACHE) > 200000:
             _KEYCACHE.clear()
-        _KEYCACHE[t.get_id()] = k
-    return k
+        _KEYCACHE[t.get_id()] = (t, k)
+        return k
+    return k[1]
 
 
 def _mulv(a, b):
@@ -165,7 +202,20 @@ class IArr(IdxND):
 
     def __init__(self, shape, fn, dtype=np.float64, fresh=True):
         self.shape = tuple(shape)
-        self.fn = fn
+        cache = {}
+
+        def memo(*ix):
+            # the entry function is pure: share the result for syntactically equal index terms (keeps nested kernels polynomial)
+            try:
+                key = tuple(t.get_id() if z3.is_expr(t) else ("c", t) for t in ix)
+            except Exception:
+                return fn(*ix)
+            hit = cache.get(key)
+            if hit is None:
+                hit = (ix, fn(*ix))           # keep the index terms alive: ids are only unique among live terms
+                cache[key] = hit
+            return hit[1]
+        self.fn = memo
         self.dtype = np.dtype(dtype)
         self.fresh = fresh
 
@@ -341,6 +391,9 @@ class IArr(IdxND):
     def __mul__(self, o):
         if isinstance(o, IArr):
             shape, fa, fb, dt = self._bcast(o)
+            if SUM_ATOMS[0]:
+                # Krylov mode: operands are general expressions, not one-hot structures: one term per entry
+                return IArr(shape, lambda *idx: [Ent([], _mulv(ents_expr(fa(*idx)), ents_expr(fb(*idx))))], dt)
             return IArr(shape, lambda *idx: [resolve_sums(Ent(a.conds + b.conds, _mulv(a.val, b.val), a.sums + b.sums, a.zf + b.zf)) for a in fa(*idx) for b in fb(*idx)], dt)
         s = SScal.lift(o)
         if not s.is_real():
@@ -508,6 +561,8 @@ def norm_slice(sl, n):
     if stc is None or stc == 0:
         raise Unsupported("slice with a symbolic or zero step")
     nn = iterm(n)
+    if sl.start is None and sl.stop is None and stc == 1:
+        return SInt(z3.IntVal(0)), SInt.lift(n), 1          # the full axis: no clamping terms
 
     def clampi(v, lo, hi):
         return z3.If(v < lo, lo, z3.If(v > hi, hi, v))
@@ -641,6 +696,9 @@ def _update_array(array, update, *slices):
                 usrc = usrc[len(usrc) - upd.ndim:]
             usrc = [z3.IntVal(0) if SInt.lift(s_).concrete() == 1 else t for t, s_ in zip(usrc, upd.shape)]
             new_terms = upd.fn(*usrc)
+        if SUM_ATOMS[0] and not sums:
+            cond = z3.And(*inside) if inside else z3.BoolVal(True)
+            return [Ent([], z3.If(cond, ents_expr(new_terms), ents_expr(array.fn(*idx))))]
         new = [resolve_sums(Ent(e.conds + inside + eqs, e.val, e.sums + tuple(sums), e.zf)) for e in new_terms]
         # the old value survives where no source position maps to idx
         if sums:
